@@ -37,7 +37,7 @@ Print Assumptions new_nodes_at_midpoints.
 
 (* the triangles an edge split produces carry the label of the triangle they divide; all others are untouched *)
 Theorem split_inherits_face_type : forall (s : list ltri) (a b e : N) (t : tri) (ty : nat),
-  In (t, ty) (split s a b e) ->
+  a <> b -> In (t, ty) (split s a b e) ->
   In (t, ty) s \/ exists t0, In (t0, ty) s /\ has_uedge t0 a b = true /\
      (t = (a, e, third t0 a b) \/ t = (e, b, third t0 a b) \/ t = (b, e, third t0 a b) \/ t = (e, a, third t0 a b)).
 Proof. exact split_labels. Qed.
